@@ -682,7 +682,8 @@ func check(model porcupine.Model, done []*hop, upto int64) porcupine.CheckResult
 			ops = append(ops, porcupine.Operation{ClientId: h.client, Input: h.in, Output: h.out, Call: h.call, Return: 1 << 62})
 		}
 	}
-	return porcupine.CheckOperationsTimeout(model, ops, 10*time.Second)
+	r, _ := hx.CheckBounded(model, ops, 2000000)
+	return r
 }
 
 // shared batch ----------------------------------------------------------------------------------------
